@@ -56,6 +56,13 @@ pub fn ind_model() -> Vec<&'static str> {
 	crate::c05::modelled().into_iter().filter(|n| !matches!(*n, "KeltnerChannel" | "TrendStrengthIndex")).collect()
 }
 
+/// long runs of the history wrapper (its buffer grows with the stream)
+const HISTORY_RUNS: u64 = 4;
+
+fn model_runs(tier: Tier) -> u64 {
+	ind_model().len() as u64 * if tier == Tier::Quick { 12 } else { 36 }
+}
+
 fn base_runs(tier: Tier) -> u64 {
 	let slots = (WINDOWED.len() + RECURSIVE.len() + IND_FINITE.len() + IND_RECURSIVE.len()) as u64;
 	match tier {
@@ -72,6 +79,11 @@ pub fn regen(case: &Case) -> Vec<In> {
 	cfg.seg = cfg.seg.max(50) * 20; // long regimes: the faults lie far in the past of late positions
 	let mut fc = FaultCount::new();
 	let name = case.sut.as_str();
+	if case.shape == 9 {
+		let mut c2 = cfg.clone();
+		c2.scale_exp = 0;
+		return feed::to_in_vals(&feed::values(&mut r.sub("values"), len, &c2, &mut fc));
+	}
 	if case.shape >= 4 {
 		// model family, stratified: 4 = long flats, 5..=8 = trend (up/down) x (ripple/strictly monotone)
 		let cs = match case.shape {
@@ -116,6 +128,81 @@ pub fn regen(case: &Case) -> Vec<In> {
 			feed::to_in_candles(&feed::candles(&mut r.sub("values"), len, &cfg, &mut fc))
 		}
 	}
+}
+
+/// `WithHistory`: after any number of outputs `get(k)` is the output k steps ago (None beyond the first one) and `iter()`
+/// yields every output, oldest first
+fn history_run(case: &Case, stream: &[In], stats: &mut Stats) -> Vec<Violation> {
+	use yata::core::{Method, ValueType};
+	use yata::helpers::WithHistory;
+	use yata::methods::{EMA, SMA};
+	enum H {
+		S(WithHistory<SMA, ValueType>),
+		E(WithHistory<EMA, ValueType>),
+	}
+	let n = case.params.len() as yata::core::PeriodType;
+	let x0 = stream[0].val() as ValueType;
+	let mut h = if case.sut.contains("SMA") {
+		match WithHistory::<SMA, ValueType>::new(n, &x0) {
+			Ok(h) => H::S(h),
+			Err(_) => return Vec::new(),
+		}
+	} else {
+		match WithHistory::<EMA, ValueType>::new(n, &x0) {
+			Ok(h) => H::E(h),
+			Err(_) => return Vec::new(),
+		}
+	};
+	stats.suts.insert(case.sut.clone());
+	stats.cover(format!("{}|history|len~1e{}", case.sut, (stream.len() as f64).log10().round() as u32));
+	let mut rec: Vec<ValueType> = Vec::with_capacity(stream.len());
+	let mut vs = Vec::new();
+	for (t, x) in stream.iter().enumerate() {
+		let xv = x.val() as ValueType;
+		let o = match &mut h {
+			H::S(h) => h.next(&xv),
+			H::E(h) => h.next(&xv),
+		};
+		rec.push(o);
+		stats.ticks += 1;
+		let len = rec.len();
+		let check = len % 8192 == 0 || (254..=258).contains(&len) || (65_534..=65_540).contains(&len) || (131_070..=131_075).contains(&len) || len == stream.len();
+		if !check {
+			continue;
+		}
+		stats.fault("observer:history_lookback");
+		for k in [0usize, 1, 2, 255, 256, 257, 1000, 32_767, 32_768, 65_535, 65_536, len - 1, len, len + 1] {
+			let got = match &h {
+				H::S(h) => h.get(k),
+				H::E(h) => h.get(k),
+			};
+			let want = len.checked_sub(k + 1).map(|i| rec[i]);
+			stats.checked += 1;
+			if got.map(ValueType::to_bits) != want.map(ValueType::to_bits) {
+				vs.push(
+					Violation::new("C07", &case.sut, "history_lookback", t, format!("after {len} outputs get({k}) = {got:?}, the output {k} steps ago was {want:?}"))
+						.tag("length", case.params.len())
+						.tag("position_decade", format!("1e{}", (t as f64).max(1.0).log10().floor() as u32))
+						.tag("beyond_1e6", "no"),
+				);
+				return vs;
+			}
+		}
+		let (cnt, first, last) = match &h {
+			H::S(h) => (h.iter().count(), h.iter().next().copied(), h.iter().last().copied()),
+			H::E(h) => (h.iter().count(), h.iter().next().copied(), h.iter().last().copied()),
+		};
+		if cnt != len || first.map(ValueType::to_bits) != Some(rec[0].to_bits()) || last.map(ValueType::to_bits) != Some(rec[len - 1].to_bits()) {
+			vs.push(
+				Violation::new("C07", &case.sut, "history_iter", t, format!("after {len} outputs iter() yields {cnt} values from {first:?} to {last:?}; produced: {len} values from {:?} to {:?}", rec[0], rec[len - 1]))
+					.tag("length", case.params.len())
+					.tag("position_decade", format!("1e{}", (t as f64).max(1.0).log10().floor() as u32))
+					.tag("beyond_1e6", "no"),
+			);
+			return vs;
+		}
+	}
+	vs
 }
 
 fn mcase(case: &Case, stream: Vec<In>) -> MCase {
@@ -214,9 +301,24 @@ impl Check for C07 {
 		"C07"
 	}
 	fn runs(&self, tier: Tier) -> u64 {
-		base_runs(tier) + ind_model().len() as u64 * if tier == Tier::Quick { 12 } else { 36 }
+		base_runs(tier) + ind_model().len() as u64 * if tier == Tier::Quick { 12 } else { 36 } + HISTORY_RUNS
 	}
 	fn generate(&self, root: &Rng, i: u64, tier: Tier) -> Case {
+		if i >= base_runs(tier) + model_runs(tier) {
+			let run = root.sub_i("run", i);
+			let mut r = run.sub("config");
+			let j = i - base_runs(tier) - model_runs(tier);
+			return Case {
+				sut: if j % 2 == 0 { "WithHistory<SMA>".into() } else { "WithHistory<EMA>".into() },
+				params: Params::Len(2 + r.below(20)),
+				cfg: None,
+				feed_seed: run.sub("feed").next_u64(),
+				len: if tier == Tier::Quick { 70_000 + r.below(70_000) } else { 140_000 + r.below(200_000) },
+				fault_free: true,
+				late_points: 0,
+				shape: 9,
+			};
+		}
 		if i >= base_runs(tier) {
 			// model family: (indicator, configuration, long regime feed | long one-sided trend)
 			let names = ind_model();
@@ -334,6 +436,9 @@ impl Check for C07 {
 			return vs;
 		}
 		let name = case.sut.as_str();
+		if case.shape == 9 {
+			return history_run(case, &stream, stats);
+		}
 		if case.shape >= 2 {
 			let mc = mcase(case, stream);
 			let shape_name = match case.shape {
